@@ -3,6 +3,7 @@
 //! module: vk_c12_tweedie_predict
 // @include common/prelude.rs
 // @include common/ghost_f32.rs
+// @include C12/helpers.rs
 use super::*;
 use ndarray::Array2;
 
@@ -29,13 +30,7 @@ fn c12_tweedie_predict_identity_rows2() {
     kani::cover!(y[0] < 0.0 && y[1] > 0.0);
 }
 
-// @unit class=bounded tier=quick mem=heavy bound="rows=2, 1 feature, integer-valued inputs/weights in [-8,8], log and logit link" timeout=1200 fns=linfa_linear::glm::TweedieRegressor::predict_inplace,linfa_linear::glm::link::Link::inverse
-#[kani::proof]
-#[kani::unwind(7)]
-#[kani::stub(alloc::fmt::format, fmt_stub)]
-#[kani::stub(f32::exp, ghost_exp32)]
-fn c12_tweedie_predict_log_logit_rows2() {
-    let logit: bool = kani::any();
+fn c12_tp_check(logit: bool) -> Array1<f32> {
     let (m, xs, w, b) = c12_tp_model(if logit { Link::Logit } else { Link::Log });
     let x = Array2::from_shape_vec((2, 1), xs.to_vec()).unwrap();
     let y: Array1<f32> = m.predict(&x);
@@ -54,6 +49,27 @@ fn c12_tweedie_predict_log_logit_rows2() {
         let alone: Array1<f32> = m.predict(&Array2::from_shape_vec((1, 1), vec![xs[i]]).unwrap());
         assert!(alone[0] == y[i]);
     }
-    kani::cover!(logit && y[0] < 0.5 && y[1] > 0.5);
-    kani::cover!(!logit && y[0] < 1.0 && y[1] > 1.0);
+    y
+}
+
+// @unit class=bounded tier=quick mem=heavy bound="rows=2, 1 feature, integer-valued inputs/weights in [-8,8], log link" timeout=900 fns=linfa_linear::glm::TweedieRegressor::predict_inplace,linfa_linear::glm::link::Link::inverse
+#[kani::proof]
+#[kani::unwind(9)]
+#[kani::stub(alloc::fmt::format, fmt_stub)]
+#[kani::stub(f32::exp, ghost_exp32)]
+fn c12_tweedie_predict_log_rows2() {
+    let y = c12_tp_check(false);
+    kani::cover!(y[0] < 1.0 && y[1] > 1.0);
+}
+
+// the row-wise clause compares quotients of two evaluations: division axiomatised (C12/helpers.rs)
+// @unit class=bounded tier=quick mem=heavy bound="rows=2, 1 feature, integer-valued inputs/weights in [-8,8], logit link; division axiomatised (C12/helpers.rs)" timeout=900 fns=linfa_linear::glm::TweedieRegressor::predict_inplace,linfa_linear::glm::link::Link::inverse
+#[kani::proof]
+#[kani::unwind(9)]
+#[kani::stub(alloc::fmt::format, fmt_stub)]
+#[kani::stub(f32::exp, ghost_exp32)]
+#[kani::stub(<f32 as core::ops::Div<f32>>::div, c12_div32)]
+fn c12_tweedie_predict_logit_rows2() {
+    let y = c12_tp_check(true);
+    kani::cover!(y[0] < 0.5 && y[1] > 0.5);
 }
